@@ -434,7 +434,32 @@ func tailAlphabet() []*big.Int {
 			}
 		}
 	}
+	// every guard digit followed by a single non-zero digit at each later position (and by nothing): the sticky
+	// tests of the 2/3/4-digit reduction arms look at different sub-ranges of the dropped digits
+	for _, z := range stickyTails(6) {
+		out = append(out, z)
+	}
 	return dedupe(out)
+}
+
+// stickyTails returns, for every length t <= maxLen, the dropped-digit patterns g000, g0d0, gd00, g00d ... (g = guard
+// digit 0..9, d in {1,5,9} at exactly one later position).
+func stickyTails(maxLen int) []*big.Int {
+	var out []*big.Int
+	for t := 1; t <= maxLen; t++ {
+		for g := int64(0); g <= 9; g++ {
+			base := new(big.Int).Mul(big.NewInt(g), ref.Pow10(t-1))
+			if base.Sign() > 0 {
+				out = append(out, base)
+			}
+			for p := 0; p < t-1; p++ {
+				for _, d := range []int64{1, 5, 9} {
+					out = append(out, new(big.Int).Add(base, new(big.Int).Mul(big.NewInt(d), ref.Pow10(p))))
+				}
+			}
+		}
+	}
+	return out
 }
 
 func c01Zeros(r *eng.Run, shapes []*big.Int) {
